@@ -1490,6 +1490,13 @@ def c04(tier, rng, rep, only=None):
         for x in some:
             ops.append(("de_json_opt", val_sexp(("s", x))))
             ops.append(("de_json_struct", val_sexp(("s", "{\"a\":%s}" % x))))
+        # map KEY position: JSON keys are strings, numeric key types are read out of the key text
+        for x in some:
+            key = x if x.startswith("\"") else "\"%s\"" % x
+            ops.append(("de_json_key", val_sexp(("s", "{%s:0}" % key))))
+        ops.append(("de_json_key", val_sexp(("s", "{}"))))
+        if d.family() == "int":
+            ops.append(("de_json_key", val_sexp(("s", "{\"1\":0,\"7\":[1,2],\"100\":null}"))))
         ops.append(("de_json_opt", val_sexp(("s", "null"))))
         ops.append(("de_json_vec", val_sexp(("s", "[]"))))
         g.add_ops(d, ops)
@@ -1783,6 +1790,37 @@ def c08(tier, rng, rep, only=None):
                               {"kind": "generated-test", "decl": d.to_json(), "decl_rust": runner.decl_module(d, None), "real": got, "model": model},
                               no_input=False)
         classes["generated_tests_run"] = n_tests
+        # the same #[test]s must exist and decide the same when the user's crate depends on nutype
+        # without its `std` feature (numeric declarations; the test harness itself still links std)
+        ndecls = [d for d in verdicts.gen_gentest_decls(rng.fork("gt"), tier) if d.family() in ("int", "float")]
+        for d in ndecls:
+            d.id = "n" + d.id
+        gn = flows.GuardRun("gentest_nostdfeat", ndecls, features=["serde", "arbitrary", "new_unchecked"])
+        for d in ndecls:
+            gn.add_ops(d, [("gen_tests", "")])
+        gn.build()
+        gn.run_model()
+        with flock("cargo_gentest_nostdfeat"):
+            p = run(["cargo", "test", "--offline", "--no-fail-fast", "-j", str(NPROC)], cwd=gn.ws.dir, timeout=1500)
+        real = {}
+        for line in (p.stdout + p.stderr).splitlines():
+            m_ = re.match(r"test decls::(\w+)::__nutype_\w+__::tests::(\w+) \.\.\. (ok|FAILED)", line)
+            if m_:
+                real.setdefault(m_.group(1), {})[m_.group(2)] = m_.group(3)
+        n_nostd = 0
+        for d in ndecls:
+            if d.id not in gn.live:
+                rep.notes.append("gentest declaration %s did not compile without the std feature" % d.id)
+                continue
+            mo = gn.by_decl[d.id][0].model or ""
+            model = dict(x.split("=") for x in mo.split(";") if "=" in x)
+            got = real.get(d.id, {})
+            n_nostd += len(got)
+            if got != model:
+                rep.violation("generated tests of %s with nutype's `std` feature off: real outcome %s, model %s" % (d.id, got, model),
+                              {"kind": "generated-test", "decl": d.to_json(), "decl_rust": runner.decl_module(d, None), "real": got, "model": model,
+                               "features": gn.features}, no_input=False)
+        classes["generated_tests_run_without_std_feature"] = n_nostd
         if n_tests < 50:
             rep.violation("self-check: generated tests were not run (%d)" % n_tests, {"kind": "coverage"}, no_input=True)
     rep.coverage.update({"evaluations": n, "distinct_nontrivial": sum(v for k_, v in classes.items() if k_ != "accept"),
@@ -2096,6 +2134,11 @@ def inventory_check(g, rep, what, decl_filter=None):
                     rep.violation("the generated module of %s is not private: %s" % (d.id, "|".join(r)), payload)
                 if r[0] == "item":
                     rep.violation("unexpected item in the generated module of %s: %s" % (d.id, "|".join(r)), payload)
+                if r[0] == "aconst":
+                    kv = dict(x.split("=") for x in r[4:])
+                    if kv["ty_self"] == "1" or kv["ctor"] == "1":
+                        rep.violation("associated constant %s::%s of %s is a value of the type made without the guarded constructors: %s"
+                                      % (r[1], r[3], d.id, "|".join(r)), payload)
                 if r[0] == "type" and r[-1] != "mut=0":
                     rep.violation("associated type with a mutable reference in %s: %s" % (d.id, "|".join(r)), payload)
                 if r[0] == "fn":
